@@ -608,4 +608,9 @@ def corpus():
     # a client-credentials request that only names the client (no secret registered, key-only client): no credential, no token
     out.append({"t": "hist", "reqs": [rq("token", "cC", post={"kind": "empty", "id": "cC"}, cc=True), rq("token", "cA", post={"kind": "empty", "id": "cA"}, cc=True),
                                       rq("token", "cA", post={"kind": "right", "id": "cA"}, cc=True), rq("token", "cB", basic={"kind": "right"}, cc=True)]})
-    return out
+    hist_cases = out
+
+    fs = [{"t": "fscdb", "ops": [["req", "current", ep], ["rotate"], ["req", "previous", ep], ["req", "current", ep], ["req", "first", "token"], ["rotate"],
+                                  ["req", "previous", "introspection"], ["req", "first", ep], ["expire"], ["req", "current", ep], ["renew"], ["req", "current", ep],
+                                  ["tick", 3], ["req", "previous", ep], ["req", "current", ep]]} for ep in FS_EPS]
+    return hist_cases + fs
